@@ -224,6 +224,35 @@ def run(ctx, anchors=None):
                  "the quantity compared with %s involves %s" % (lname, ", ".join(sorted(want))),
                  "the quantity compared with %s is `%s`; consensus counts %s (found only %s)" % (lname, astq.estr(other), " + ".join(sorted(want)), ", ".join(sorted(names & want)) or "none of them"))
 
+    # ---- R10.8 the limits the batch validator applies *around* a script have a counterpart in the session: EvalScript tests the
+    # size of every script it is given (the session must do so for every script it enters: the first one and each switch), and
+    # ExecuteWitnessScript bounds the initial witness stack (element size; number of items for tapscript)
+    ctx.rule("R10.8", "limits applied around a script by EvalScript / ExecuteWitnessScript are applied by the session too: script size at every script entered, element size and (tapscript) item count of the initial witness stack")
+    from . import common as _cm10
+    conf = fb.fn("Instance::configure_tx_txin")
+    reach_conf = prog.reachable([conf, setup])
+    for lname, what in (("MAX_SCRIPT_ELEMENT_SIZE", "an initial witness item larger than 520 bytes"), ("MAX_STACK_SIZE", "an initial tapscript stack of more than 1000 items")):
+        have = [(f, n) for (f, n, r) in per_limit.get(lname, []) if f.id in reach_conf and f.id not in reach_step and f.file in ("instance.cpp", "debugger/interpreter.cpp")]
+        ctx.site()
+        ctx.inst(bool(have), "R10.8", "initial-witness-stack:" + lname, have[0][0].loc(have[0][1]) if have else conf.loc(),
+                 "session set-up compares the initial witness stack with %s" % lname,
+                 "session set-up never compares the initial witness stack with %s (ExecuteWitnessScript does): %s is accepted and the script runs" % (lname, what))
+    sw10 = _cm10.script_switches(prog, stepper)
+    scfg10 = stepper.cfg()
+    size_sites = []
+    for (f, n, r) in per_limit.get("MAX_SCRIPT_SIZE", []):
+        if f is stepper:
+            # the test may be guarded by the script version (tapscript is exempt): what must be passed is the `if` that holds it,
+            # i.e. the first conjunct of its condition
+            ifs = [a for a in stepper.ancestors(n) if a.get("k") == "if" and S.contains(a.get("cond"), n)]
+            size_sites.append(S.conjuncts(ifs[0]["cond"])[0] if ifs else n)
+    for swn in sw10:
+        ctx.site()
+        key = astq.estr(swn)[:40]
+        ctx.inst(bool(size_sites) and scfg10.must_pass_after(swn, size_sites), "R10.8", "script-size-at-switch:" + key, stepper.loc(swn),
+                 "after the switch the size of the script entered is compared with MAX_SCRIPT_SIZE on every path",
+                 "the script entered by `%s` is never compared with MAX_SCRIPT_SIZE (only the first script of a session is, in the InterpreterEnv constructor): a scriptPubKey or redeem script of more than 10,000 bytes is executed" % key)
+
     # ---- R10.2b required enforcement
     for name, s in sorted(LIM.items()):
         scope = reach_step if s["required_in"] == "opstep" else reach_setup
@@ -411,6 +440,9 @@ def run(ctx, anchors=None):
 
 
 MUTANTS = [
+    dict(name="switch-script-size-unchecked", file="debugger/interpreter.cpp", find="        env.altstack.clear(); // every script starts with an empty alt stack\n        if ((env.sigversion == SigVersion::BASE || env.sigversion == SigVersion::WITNESS_V0) && script.size() > MAX_SCRIPT_SIZE) return set_error(serror, SCRIPT_ERR_SCRIPT_SIZE);\n", replace="        env.altstack.clear(); // every script starts with an empty alt stack\n", expect=["R10.8:script-size-at-switch"]),
+    dict(name="witness-item-size-unchecked", file="instance.cpp", find="                if (item.size() > MAX_SCRIPT_ELEMENT_SIZE) {", replace="                if (item.size() > 0xffffff) {", expect=["R10.8:initial-witness-stack:MAX_SCRIPT_ELEMENT_SIZE"]),
+    dict(name="tapscript-initial-stack-unchecked", file="instance.cpp", find="            if (sigver == SigVersion::TAPSCRIPT && stack.size() > MAX_STACK_SIZE) {", replace="            if (false) {", expect=["R10.8:initial-witness-stack:MAX_STACK_SIZE"]),
     dict(name="push-size-only-when-executed", file="script/interpreter.cpp", find="            if (vchPushValue.size() > MAX_SCRIPT_ELEMENT_SIZE)\n                return set_error(serror, SCRIPT_ERR_PUSH_SIZE);\n", replace="            if (fExec && vchPushValue.size() > MAX_SCRIPT_ELEMENT_SIZE)\n                return set_error(serror, SCRIPT_ERR_PUSH_SIZE);\n", expect=["R10.3:push-size-before-fExec-test"]),
     dict(name="altstack-not-counted", file="script/interpreter.cpp", find="if (stack.size() + altstack.size() > MAX_STACK_SIZE)\n                return set_error(serror, SCRIPT_ERR_STACK_SIZE);\n        }\n    }",
          replace="if (stack.size() > MAX_STACK_SIZE)\n                return set_error(serror, SCRIPT_ERR_STACK_SIZE);\n        }\n    }", expect=["R10.7:quantity=MAX_STACK_SIZE"]),
